@@ -49,6 +49,9 @@ def DataFrame_from_json_decorators : List String := ["classmethod"]
 /-- the signature of dataiter/data_frame.py: DataFrame.from_json: parameters in order, with the source text of their defaults -/
 def DataFrame_from_json_signature : List String := ["cls", "string", "*", "columns=[]", "dtypes={}", "**kwargs"]
 
+/-- the calls of dataiter/data_frame.py: DataFrame.from_json in the order Python makes them along the source text -/
+def DataFrame_from_json_call_order : List String := ["isinstance", "json.loads", "isinstance", "TypeError", "itertools.chain", "util.unique_keys", "x.get", "dtypes.items", "DataFrameColumn", "cls"]
+
 /-- dataiter/data_frame.py: DataFrame.read_json (sha256 of the function source: d7455ebe58e7fbc6) -/
 def DataFrame_read_json (truth : Term → Bool) : Out :=
   let eff0 : Term := (Term.app "with" [(Term.app "util.xopen" [(Term.sym "path"), (Term.sym "'rt'"), (Term.app "=encoding" [(Term.sym "encoding")])])]);
@@ -59,6 +62,9 @@ def DataFrame_read_json_decorators : List String := ["classmethod"]
 
 /-- the signature of dataiter/data_frame.py: DataFrame.read_json: parameters in order, with the source text of their defaults -/
 def DataFrame_read_json_signature : List String := ["cls", "path", "*", "encoding='utf-8'", "columns=[]", "dtypes={}", "**kwargs"]
+
+/-- the calls of dataiter/data_frame.py: DataFrame.read_json in the order Python makes them along the source text -/
+def DataFrame_read_json_call_order : List String := ["util.xopen", "f.read", "cls.from_json"]
 
 /-- dataiter/data_frame.py: DataFrame.read_csv (sha256 of the function source: dc35aaded235743c) -/
 def DataFrame_read_csv (truth : Term → Bool) : Out :=
@@ -81,6 +87,9 @@ def DataFrame_read_csv_decorators : List String := ["classmethod"]
 /-- the signature of dataiter/data_frame.py: DataFrame.read_csv: parameters in order, with the source text of their defaults -/
 def DataFrame_read_csv_signature : List String := ["cls", "path", "*", "encoding='utf-8'", "sep=','", "header=True", "columns=[]", "dtypes={}"]
 
+/-- the calls of dataiter/data_frame.py: DataFrame.read_csv in the order Python makes them along the source text -/
+def DataFrame_read_csv_call_order : List String := ["util.xopen", "csv.ReadOptions", "csv.ParseOptions", "csv.ConvertOptions", "csv.read_csv", "util.generate_colnames", "table.rename_columns", "table.select", "cls.from_arrow"]
+
 /-- dataiter/data_frame.py: DataFrame.read_parquet (sha256 of the function source: 3e95913a0704035f) -/
 def DataFrame_read_parquet (truth : Term → Bool) : Out :=
   let columns' : Term := (Term.app "Or" [(Term.sym "columns"), (Term.sym "None")]);
@@ -92,6 +101,9 @@ def DataFrame_read_parquet_decorators : List String := ["classmethod"]
 
 /-- the signature of dataiter/data_frame.py: DataFrame.read_parquet: parameters in order, with the source text of their defaults -/
 def DataFrame_read_parquet_signature : List String := ["cls", "path", "*", "columns=[]", "dtypes={}"]
+
+/-- the calls of dataiter/data_frame.py: DataFrame.read_parquet in the order Python makes them along the source text -/
+def DataFrame_read_parquet_call_order : List String := ["pq.read_table", "cls.from_arrow"]
 
 /-- dataiter/list_of_dicts.py: ListOfDicts.from_json (sha256 of the function source: 747140db1f0360e6) -/
 def ListOfDicts_from_json (truth : Term → Bool) : Out :=
@@ -114,6 +126,9 @@ def ListOfDicts_from_json_decorators : List String := ["classmethod"]
 /-- the signature of dataiter/list_of_dicts.py: ListOfDicts.from_json: parameters in order, with the source text of their defaults -/
 def ListOfDicts_from_json_signature : List String := ["cls", "string", "*", "keys=[]", "types={}", "**kwargs"]
 
+/-- the calls of dataiter/list_of_dicts.py: ListOfDicts.from_json in the order Python makes them along the source text -/
+def ListOfDicts_from_json_call_order : List String := ["json.loads", "isinstance", "TypeError", "set", "set", "types.items", "type", "cls"]
+
 /-- dataiter/list_of_dicts.py: ListOfDicts.read_json (sha256 of the function source: a3234885ed7eafdc) -/
 def ListOfDicts_read_json (truth : Term → Bool) : Out :=
   let eff0 : Term := (Term.app "with" [(Term.app "util.xopen" [(Term.sym "path"), (Term.sym "'rt'"), (Term.app "=encoding" [(Term.sym "encoding")])])]);
@@ -124,6 +139,9 @@ def ListOfDicts_read_json_decorators : List String := ["classmethod"]
 
 /-- the signature of dataiter/list_of_dicts.py: ListOfDicts.read_json: parameters in order, with the source text of their defaults -/
 def ListOfDicts_read_json_signature : List String := ["cls", "path", "*", "encoding='utf-8'", "keys=[]", "types={}", "**kwargs"]
+
+/-- the calls of dataiter/list_of_dicts.py: ListOfDicts.read_json in the order Python makes them along the source text -/
+def ListOfDicts_read_json_call_order : List String := ["util.xopen", "f.read", "cls.from_json"]
 
 /-- dataiter/list_of_dicts.py: ListOfDicts.read_csv (sha256 of the function source: a01be0e8f9a60cb9) -/
 def ListOfDicts_read_csv (truth : Term → Bool) : Out :=
@@ -150,5 +168,8 @@ def ListOfDicts_read_csv_decorators : List String := ["classmethod"]
 
 /-- the signature of dataiter/list_of_dicts.py: ListOfDicts.read_csv: parameters in order, with the source text of their defaults -/
 def ListOfDicts_read_csv_signature : List String := ["cls", "path", "*", "encoding='utf-8'", "sep=','", "header=True", "keys=[]", "types={}"]
+
+/-- the calls of dataiter/list_of_dicts.py: ListOfDicts.read_csv in the order Python makes them along the source text -/
+def ListOfDicts_read_csv_call_order : List String := ["util.xopen", "csv.reader", "list", "cls", "rows.pop", "len", "util.generate_colnames", "len", "range", "reversed", "zip", "dict", "cls", "types.items", "type"]
 
 end DI.Gen
